@@ -23,6 +23,7 @@ import (
 	"path/filepath"
 	"runtime/debug"
 	"sort"
+	"strings"
 	"sync"
 	"syscall"
 	"time"
@@ -482,6 +483,129 @@ func runCase(c acase) (res result) {
 	return
 }
 
+// ---- real-process stop stream (C05): real `sh` steps run by the real agent and the real command executor ----
+type rcase struct {
+	ID        string   `json:"id"`
+	Cmds      []string `json:"cmds"`    // one independent step per shell command
+	Sigs      []string `json:"sigs"`    // signalOnStop per step ("" = none)
+	StopVia   string   `json:"stopVia"` // api | os
+	CleanupMs int      `json:"cleanupMs"`
+	DelayMs   int      `json:"delayMs"` // stop that long after the start
+}
+
+type rresult struct {
+	ID       string   `json:"id"`
+	EndedMs  int64    `json:"endedMs"` // after the stop; -1 = still alive at the end of the wait
+	Overall  string   `json:"overall"`
+	St       []string `json:"st"`
+	Left     int      `json:"left"` // step processes (carrying the case token) still alive 300 ms after the run ended
+	Handlers []string `json:"handlers"`
+	Panic    string   `json:"panic,omitempty"`
+}
+
+func countToken(tok string) int {
+	n := 0
+	ents, _ := os.ReadDir("/proc")
+	for _, e := range ents {
+		if e.Name()[0] < '0' || e.Name()[0] > '9' {
+			continue
+		}
+		b, err := os.ReadFile("/proc/" + e.Name() + "/cmdline")
+		if err == nil && strings.Contains(string(b), tok) {
+			n++
+		}
+	}
+	return n
+}
+
+func killToken(tok string) {
+	ents, _ := os.ReadDir("/proc")
+	for _, e := range ents {
+		if e.Name()[0] < '0' || e.Name()[0] > '9' {
+			continue
+		}
+		b, err := os.ReadFile("/proc/" + e.Name() + "/cmdline")
+		if err == nil && strings.Contains(string(b), tok) {
+			var pid int
+			fmt.Sscan(e.Name(), &pid)
+			syscall.Kill(pid, syscall.SIGKILL)
+		}
+	}
+}
+
+func runReal(c rcase) (res rresult) {
+	res.ID = c.ID
+	res.EndedMs = -1
+	defer func() {
+		if r := recover(); r != nil {
+			res.Panic = fmt.Sprint(r)
+		}
+	}()
+	root, _ := os.MkdirTemp("", "verif-real-")
+	defer os.RemoveAll(root)
+	tok := "VERIFTOK" + filepath.Base(root)
+	defer killToken(tok)
+	dagsDir, dataDir := filepath.Join(root, "dags"), filepath.Join(root, "data")
+	os.MkdirAll(dagsDir, 0o755)
+	lg := logger.NewLogger(logger.NewLoggerArgs{Quiet: true})
+	ds := dsclient.NewDataStores(dagsDir, dataDir, filepath.Join(root, "suspend"), dsclient.DataStoreOptions{})
+	cli := client.New(ds, "/bin/true", root, lg)
+	d := &dag.DAG{Name: "r" + c.ID, Location: filepath.Join(dagsDir, "r"+c.ID+".yaml"),
+		LogDir: filepath.Join(root, "log"), HistRetentionDays: 30, MaxCleanUpTime: time.Duration(c.CleanupMs) * time.Millisecond,
+		SMTP: &dag.SMTPConfig{}, MailOn: &dag.MailOn{}, ErrorMail: &dag.MailConfig{}, InfoMail: &dag.MailConfig{}}
+	os.WriteFile(d.Location, []byte("steps: []\n"), 0o644)
+	marks := filepath.Join(root, "handlers.txt")
+	for i, cmd := range c.Cmds {
+		// the token rides in the command line of every process of the step (sh -c '<cmd>' <token>)
+		st := dag.Step{Name: fmt.Sprintf("s%d", i), Command: "sh", Args: []string{"-c", cmd, tok}}
+		if i < len(c.Sigs) {
+			st.SignalOnStop = c.Sigs[i]
+		}
+		d.Steps = append(d.Steps, st)
+	}
+	mk := func(name string) *dag.Step {
+		return &dag.Step{Name: name, Command: "sh", Args: []string{"-c", "echo " + name + " >> " + marks}}
+	}
+	d.HandlerOn = dag.HandlerOn{Success: mk("onSuccess"), Failure: mk("onFailure"), Cancel: mk("onCancel"), Exit: mk("onExit")}
+	logDir := filepath.Join(root, "log")
+	os.MkdirAll(logDir, 0o755)
+	ag := agent.New("req-"+c.ID, d, lg, logDir, filepath.Join(logDir, "agent.log"), cli, ds, &agent.Options{})
+	finished := make(chan struct{})
+	go func() {
+		defer func() {
+			if r := recover(); r != nil {
+				res.Panic = fmt.Sprint(r)
+			}
+			close(finished)
+		}()
+		_ = ag.Run(context.Background())
+	}()
+	time.Sleep(time.Duration(c.DelayMs) * time.Millisecond)
+	t0 := time.Now()
+	if c.StopVia == "api" {
+		go ag.HandleHTTP(&respW{}, &http.Request{Method: "POST", URL: &url.URL{Path: "/stop"}})
+	} else {
+		go ag.Signal(syscall.SIGTERM)
+	}
+	select {
+	case <-finished:
+		res.EndedMs = time.Since(t0).Milliseconds()
+	case <-time.After(time.Duration(c.CleanupMs)*time.Millisecond + 8*time.Second):
+	}
+	time.Sleep(300 * time.Millisecond)
+	res.Left = countToken(tok)
+	if ps, err := jsondb.New(dataDir, false).ReadStatusToday(d.Location); err == nil && ps != nil {
+		res.Overall = ps.Status.String()
+		for _, nd := range ps.Nodes {
+			res.St = append(res.St, nd.Status.String())
+		}
+	}
+	if b, err := os.ReadFile(marks); err == nil {
+		res.Handlers = strings.Fields(string(b))
+	}
+	return
+}
+
 // latest <dagsDir> <dataDir> <dagfile>: what client.GetLatestStatus reports for a DAG (used after a real
 // `blackdagger start` process was killed)
 func latestMode(dagsDir, dataDir, file string) {
@@ -503,6 +627,27 @@ func main() {
 	log.SetOutput(io.Discard)
 	if len(os.Args) >= 5 && os.Args[1] == "latest" {
 		latestMode(os.Args[2], os.Args[3], os.Args[4])
+		return
+	}
+	if len(os.Args) >= 2 && os.Args[1] == "realstop" {
+		in := bufio.NewReaderSize(os.Stdin, 1<<20)
+		out := bufio.NewWriter(os.Stdout)
+		defer out.Flush()
+		for {
+			line, err := in.ReadBytes('\n')
+			if len(line) > 1 {
+				var c rcase
+				if e := json.Unmarshal(line, &c); e == nil {
+					b, _ := json.Marshal(runReal(c))
+					out.Write(b)
+					out.WriteByte('\n')
+					out.Flush()
+				}
+			}
+			if err != nil {
+				break
+			}
+		}
 		return
 	}
 	in := bufio.NewReaderSize(os.Stdin, 1<<20)
